@@ -235,6 +235,7 @@ pub fn run(report: &mut Report, replay: Option<&Value>) {
     let mut cfg = CaseCfg::default();
     cfg.delivery_weights = [34, 33, 33];
     cfg.allow_deny = false;
+    cfg.gen.recursion_percent = 25;
     let cfg_r = cfg.clone();
     let rebuild = |tp: &[u8]| build_items(tp, &cfg_r, &mut GenStats::default(), &|_| false, false).into_iter().last();
     let hooks = Hooks { classify: &classify, classify_compile: &classify_compile, compile_failure_is_violation: true, rebuild: Some(&rebuild) };
